@@ -19,13 +19,19 @@
 #include "verif_hooks.h"
 #include <algorithm>
 #include <set>
+#include <sys/mman.h>
+#include <thread>
 
 using sim::Op;
 using smt::lit;
 
 extern void (*sim_layout_free_hook)(void *, size_t);
 static sim::Out *g_out = nullptr;
-static sim::EventLog g_log;
+static sim::EventLog g_log;  // client 0 (the thread that owns the run)
+static sim::EventLog g_log2; // client 1 (`clients=2`: a second caller thread with a network of its own, same history)
+static std::vector<std::string> g_clauses2;
+static const smt::sat_core *g_sat2 = nullptr;
+static thread_local int tl_client = 0;
 static std::string g_struct;
 static bool g_debug = false;
 static std::vector<std::string> g_debug_lines;
@@ -35,7 +41,61 @@ static long g_ops_done = 0;
 
 static std::string rs(const smt::inf_rational &v) { return to_string(v); }
 
-static void hook(const smt::sat_core &, const std::vector<lit> &c)
+// storage seam for tableau rows (hook H2'): client 0 uses the layout allocator's dedicated pool, client 1 a second LIFO pool at
+// another fixed address
+namespace
+{
+  constexpr uintptr_t POOL2_BASE = 0x0d0000000000ULL;
+  constexpr size_t POOL2_SIZE = 1ULL << 28;
+  uintptr_t g_pool2_bump = 0;
+  void *g_pool2_free = nullptr;
+  size_t g_pool2_block = 0;
+}
+static void *row_alloc(size_t n)
+{
+  if (tl_client == 0)
+    return sim::layout::pool_alloc(n);
+  if (!g_pool2_bump)
+  {
+    void *a = mmap(reinterpret_cast<void *>(POOL2_BASE), POOL2_SIZE, PROT_READ | PROT_WRITE, MAP_PRIVATE | MAP_ANONYMOUS | MAP_NORESERVE | MAP_FIXED_NOREPLACE, -1, 0);
+    if (a != reinterpret_cast<void *>(POOL2_BASE))
+    {
+      fprintf(stderr, "par: cannot map the second row pool\n");
+      abort();
+    }
+    g_pool2_bump = POOL2_BASE;
+    g_pool2_block = (n + 15) & ~size_t(15);
+  }
+  if (((n + 15) & ~size_t(15)) != g_pool2_block)
+  {
+    fprintf(stderr, "par: second row pool asked for another block size\n");
+    abort();
+  }
+  if (g_pool2_free)
+  {
+    void *p = g_pool2_free;
+    g_pool2_free = *static_cast<void **>(p);
+    return p;
+  }
+  void *p = reinterpret_cast<void *>(g_pool2_bump);
+  g_pool2_bump += g_pool2_block;
+  return p;
+}
+static void row_free(void *p)
+{
+  const uintptr_t a = reinterpret_cast<uintptr_t>(p);
+  if (a >= POOL2_BASE && a < POOL2_BASE + POOL2_SIZE)
+  {
+    if (sim_layout_free_hook)
+      sim_layout_free_hook(p, g_pool2_block);
+    *static_cast<void **>(p) = g_pool2_free;
+    g_pool2_free = p;
+    return;
+  }
+  sim::layout::pool_free(p);
+}
+
+static void hook(const smt::sat_core &sc, const std::vector<lit> &c)
 {
   std::vector<std::string> ls;
   for (auto &l : c)
@@ -44,6 +104,11 @@ static void hook(const smt::sat_core &, const std::vector<lit> &c)
   std::string s;
   for (auto &x : ls)
     s += x + " ";
+  if (&sc == g_sat2)
+  {
+    g_clauses2.push_back(s);
+    return;
+  }
   g_clauses.push_back(s);
   if (g_debug)
   {
@@ -85,6 +150,7 @@ static void fatal_hook()
 
 struct Interp
 {
+  sim::EventLog *log = &g_log;
   smt::sat_core *sat = nullptr;
   smt::lra_theory *lra = nullptr;
   std::vector<smt::var> bl{smt::FALSE_var};
@@ -129,10 +195,10 @@ struct Interp
     std::string s;
     for (size_t i = 1; i < bl.size(); ++i)
       s += std::to_string(sat->value(bl[i]));
-    g_log.ev(s);
+    log->ev(s);
     for (auto x : xs)
-      g_log.ev("x" + std::to_string(x) + " " + rs(lra->value(x)) + " [" + rs(lra->lb(x)) + "," + rs(lra->ub(x)) + "]");
-    g_log.ev("level " + std::to_string(sat->decision_level()));
+      log->ev("x" + std::to_string(x) + " " + rs(lra->value(x)) + " [" + rs(lra->lb(x)) + "," + rs(lra->ub(x)) + "]");
+    log->ev("level " + std::to_string(sat->decision_level()));
     if (g_debug)
     {
       for (auto &tr : lra->tableau)
@@ -175,7 +241,7 @@ struct Interp
   }
   void res(const char *what, bool r)
   {
-    g_log.ev(std::string(what) + (r ? " true" : " false"));
+    log->ev(std::string(what) + (r ? " true" : " false"));
     if (!r && sat->root_level() && std::string(what) != "check")
       dead = true;
   }
@@ -246,7 +312,7 @@ struct Interp
         p = lra->new_gt(l, r);
         break;
       }
-      g_log.ev("lrel -> " + to_string(p));
+      log->ev("lrel -> " + to_string(p));
       if (variable(p) != smt::FALSE_var && std::find(bl.begin(), bl.end(), variable(p)) == bl.end())
         bl.push_back(variable(p));
     }
@@ -311,7 +377,7 @@ struct Interp
       if (ls.empty())
         return;
       bool r = sat->check(ls);
-      g_log.ev(std::string("check ") + (r ? "true" : "false"));
+      log->ev(std::string("check ") + (r ? "true" : "false"));
       if (!r && sat->root_level())
       { // may have turned out inconsistent at root: probe once, a second false ends the history
         if (!sat->propagate())
@@ -368,38 +434,76 @@ static void run_cmd(const sim::Cmd &c, sim::Out &out)
   }
   out.flush();
   g_log.keep = g_debug = c.num("verbose", 0) != 0;
-  smt::verif::on_row_alloc = sim::layout::pool_alloc;
-  smt::verif::on_row_free = sim::layout::pool_free;
+  g_log2.keep = g_log.keep;
+  int clients = static_cast<int>(c.num("clients", 1));
+#ifndef PARALLELIZE
+  clients = 1;
+#endif
+  smt::verif::on_row_alloc = row_alloc;
+  smt::verif::on_row_free = row_free;
   sim::layout::start(seed, false, 0);
 #ifdef PARALLELIZE
   par::sched_start(sim::mix64(seed ^ (sched * 0x9E3779B97F4A7C15ULL)), policy, nprocs, policy == 0 ? 0 : spur);
 #endif
   sim_layout_free_hook = par::sched_forget;
   smt::verif::on_record = hook;
-  Interp in;
-  in.sat = new smt::sat_core();
-  in.lra = new smt::lra_theory(*in.sat);
-  for (size_t i = 0; i < ops.size() && !in.dead; ++i)
+  // one caller thread = one network of its own running the whole history; with `clients=2` a second caller thread does the same
+  // at the same time (its rows come from a second fixed-address pool, so that row addresses stay a function of each network's own
+  // sequence of row creations): nothing the library keeps per process may make the two influence each other
+  std::string struct2;
+  auto run_history = [&ops](Interp &in, sim::EventLog &lg, std::string &structv, bool primary)
   {
-    g_log.ev("op " + ops[i].text());
-    if (getenv("DBG_LRA"))
-      fprintf(stderr, "op %zu %s\n", i, ops[i].text().c_str());
-    in.exec(ops[i]);
-    in.observe();
-    if (g_struct.empty())
+    in.log = &lg;
+    in.sat = new smt::sat_core();
+    if (!primary)
+      g_sat2 = in.sat;
+    in.lra = new smt::lra_theory(*in.sat);
+    for (size_t i = 0; i < ops.size() && !in.dead; ++i)
     {
-      g_struct = in.watches();
-      if (!g_struct.empty())
-        g_struct = "after op " + std::to_string(i) + " (" + ops[i].text() + "): " + g_struct;
+      lg.ev("op " + ops[i].text());
+      if (primary && getenv("DBG_LRA"))
+        fprintf(stderr, "op %zu %s\n", i, ops[i].text().c_str());
+      in.exec(ops[i]);
+      in.observe();
+      if (structv.empty())
+      {
+        structv = in.watches();
+        if (!structv.empty())
+          structv = std::string(primary ? "" : "[second client] ") + "after op " + std::to_string(i) + " (" + ops[i].text() + "): " + structv;
+      }
+      if (primary)
+        g_ops_done = static_cast<long>(i) + 1;
     }
-    g_ops_done = static_cast<long>(i) + 1;
+  };
+  Interp in, in2;
+  if (clients >= 2)
+  {
+    std::thread second([&]()
+                       {
+                         tl_client = 1;
+                         run_history(in2, g_log2, struct2, false);
+                       });
+    run_history(in, g_log, g_struct, true);
+    second.join();
+    if (g_struct.empty())
+      g_struct = struct2;
   }
+  else
+    run_history(in, g_log, g_struct, true);
   par::sched_stop();
   sim::layout::stop();
   std::sort(g_clauses.begin(), g_clauses.end());
   for (auto &s : g_clauses)
     g_log.ev("clause " + s);
   std::string h = sim::hex64(g_log.hash());
+  std::string h2 = h;
+  if (clients >= 2)
+  {
+    std::sort(g_clauses2.begin(), g_clauses2.end());
+    for (auto &s : g_clauses2)
+      g_log2.ev("clause " + s);
+    h2 = sim::hex64(g_log2.hash());
+  }
   if (c.num("verbose", 0))
   {
     for (auto &l : g_log.lines)
@@ -409,6 +513,8 @@ static void run_cmd(const sim::Cmd &c, sim::Out &out)
   }
   if (!g_struct.empty())
     emit_result("VIOL", "V oracle=PAR class=PAR.watch_lists_inconsistent op=0 msg=" + g_struct);
+  else if (h2 != h)
+    emit_result("VIOL", "V oracle=PAR class=PAR.clients_influence_each_other op=0 msg=two caller threads ran the same history at the same time, each on a network of its own, under schedule " + std::to_string(sched) + " (policy " + std::to_string(policy) + ", " + std::to_string(nprocs) + " workers each): their observation logs differ (" + h + " / " + h2 + ")");
   else if (!expect.empty() && expect != h)
     emit_result("VIOL", "V oracle=PAR class=PAR.differs_from_canonical_schedule op=0 msg=under schedule " + std::to_string(sched) + " (policy " + std::to_string(policy) + ", " + std::to_string(nprocs) + " workers) the observation log (verdicts, literal values, values and bounds of every variable, set of recorded clauses) has hash " + h + " but the canonical schedule gives " + expect);
   else
